@@ -606,6 +606,9 @@ func writeViaProcSink(dir string, t *table, o opts, toStdout bool) (data []byte,
 		so, err = p.Exec("SELECT * FROM t")
 		return []byte(so), err, true
 	}
+	if sessionHook != nil {
+		sessionHook(tx)
+	}
 	var buf bytes.Buffer
 	tx.Session.SetOutFile(&buf)
 	_, err = p.Exec("SELECT * FROM t")
@@ -1039,13 +1042,19 @@ func main() {
 		}
 		csvqBin = buildCsvq(scratch)
 		corpus(o, scratch)
+		altCorpus(o, scratch)
+		sessionFlagCorpus(o, scratch)
+		jspellCorpus(o, scratch)
 		refuseMatrix(o, scratch)
 		for i := 0; i < n; i++ {
 			switch i % 20 {
 			case 0, 1, 2:
 				encCase(g, o)
-			case 3, 17:
+			case 3:
 				jencCase(g, o)
+			case 17:
+				jencCase(g, o)
+				jspellCase(g, o, scratch)
 			case 4, 5, 6:
 				decCase(g, o, scratch)
 			case 18:
@@ -1061,10 +1070,19 @@ func main() {
 			case 12:
 				diaCase(g, o, scratch)
 			case 13:
-				if (i/20)%2 == 0 {
+				switch (i / 20) % 4 {
+				case 0:
 					diaCase(g, o, scratch)
-				} else {
+				case 1:
 					createCase(g, o, scratch)
+				case 2:
+					altCase(g, o, scratch)
+				default:
+					if (i/80)%2 == 0 {
+						altCase(g, o, scratch)
+					} else {
+						sessionFlagCase(g, o, scratch)
+					}
 				}
 			case 14:
 				refuseCase(g, o, scratch)
